@@ -43,10 +43,13 @@ func decodedRoots(fn *ssa.Function) []ssa.Value {
 		seen[v] = true
 		out = append(out, v)
 	}
-	for _, in := range instrsOf(fn) {
+	for _, in := range instrsDeep(fn) {
 		switch x := in.(type) {
 		case *ssa.Return:
-			for _, r := range retResults(x) {
+			if x.Parent() != fn {
+				continue // a helper's return: seen through its call
+			}
+			for _, r := range expandStructResults(retResults(x)) {
 				add(r)
 			}
 		case *ssa.Call:
@@ -118,7 +121,7 @@ func decoderRegions(fn *ssa.Function, input ssa.Value) []region {
 		if !ok {
 			continue
 		}
-		for _, v := range retResults(r) {
+		for _, v := range expandStructResults(retResults(r)) {
 			s, ok := strip(v).(*ssa.Slice)
 			if !ok || seen[s] || strip(s.X) != input {
 				continue
@@ -299,6 +302,7 @@ func checkC13(c *Ctx) {
 	for _, cp := range codecPairs {
 		checkCodecPair(c, m, cp)
 	}
+	ruleC13NoInnerBound(c)
 	// B4: byte copies of the hand-written encoders copy all of their source
 	const B4 = "C13.B4"
 	c.Rule(B4, "byte copies in the encoders are complete (no silent truncation)", 1)
@@ -324,12 +328,27 @@ func checkC13(c *Ctx) {
 	const B3 = "C13.B3"
 	c.Rule(B3, "id hashing feeds every byte of the identifier", 1)
 	for _, site := range []struct{ pkg, recv, fn string }{{PkgDisc, "", "makePRF"}, {PkgThreshold, "", "membershipSyncTopicName"}} {
-		fn := c.mustFunc(m, site.pkg, site.recv, site.fn)
+		var fn *ssa.Function
+		var cands []*ssa.Function
+		if site.pkg == PkgDisc {
+			// the tag PRF by role (the literal of makePRF, or the evaluation method of a PRF object)
+			for f := range discPRFEvals(m) {
+				cands = append(cands, f)
+			}
+			sort.Slice(cands, func(i, j int) bool { return cands[i].String() < cands[j].String() })
+			if len(cands) > 0 {
+				fn = cands[0]
+			}
+		}
 		if fn == nil {
-			continue
+			fn = c.mustFunc(m, site.pkg, site.recv, site.fn)
+			if fn == nil {
+				continue
+			}
+			cands = WithAnon(fn)
 		}
 		n := 0
-		for _, f := range WithAnon(fn) {
+		for _, f := range cands {
 			for _, in := range instrsOf(f) {
 				cl, ok := in.(*ssa.Call)
 				if !ok || !cl.Call.IsInvoke() || cl.Call.Method.Name() != "Write" {
@@ -449,5 +468,91 @@ func checkC13(c *Ctx) {
 				}
 			}
 		}
+	}
+}
+
+// expandStructResults: a decoder that hands its outputs back as one struct (`return header{round: …,
+// sender: …, digest: …}, nil`): the values given to the fields of the literal stand for the results.
+func expandStructResults(res []ssa.Value) []ssa.Value {
+	var out []ssa.Value
+	for _, r := range res {
+		st, isS := r.Type().Underlying().(*types.Struct)
+		a := allocOfStructValue(r)
+		if !isS || a == nil {
+			out = append(out, r)
+			continue
+		}
+		for i := 0; i < st.NumFields(); i++ {
+			if v, ok := structLitFieldValue(a, st.Field(i)); ok && v != nil {
+				out = append(out, v)
+			}
+		}
+	}
+	return out
+}
+
+// ruleC13NoInnerBound (C13.R1): no validation cuts the 16-bit identifier range.  Wherever a value that is
+// (converted to or from) a 16-bit identifier is compared with a constant K, K is not strictly inside the
+// range (255 < K < 65535): a bound like `p >= 1<<15` (the signed 16-bit limit) or `id > 4096` rejects —
+// or treats differently — identifiers that every other layer carries faithfully, so sessions whose
+// members have large identifiers fail where small ones work.  Bounds at the edge of the range (≤ 255 is a
+// byte test, 65535/65536 the range itself) are fine.
+func ruleC13NoInnerBound(c *Ctx) {
+	const R1 = "C13.R1"
+	c.Rule(R1, "no comparison of a 16-bit identifier with a constant strictly inside the 16-bit range", 0)
+	n := 0
+	for _, mp := range []struct{ mod, pkg string }{{ModRoot, PkgDisc}, {ModRoot, PkgThreshold}, {ModRoot, PkgRBC}, {ModRoot, PkgNet}, {ModBLS, PkgBLS}, {ModPS, PkgPS}, {ModECDSA, PkgECDSA}, {ModEDDSA, PkgEDDSA}} {
+		mm := c.Mod(mp.mod)
+		if mm == nil {
+			continue
+		}
+		for _, fn := range mm.PkgFuncs(mp.pkg) {
+			// values of this function that are identifiers: 16-bit typed, or converted to a 16-bit type
+			isID := map[ssa.Value]bool{}
+			for _, in := range instrsOf(fn) {
+				if cv, ok := in.(*ssa.Convert); ok {
+					if intWidth(cv.Type()) == 16 && intWidth(cv.X.Type()) > 0 {
+						isID[cv.X] = true
+						isID[cv] = true
+					}
+					if intWidth(cv.X.Type()) == 16 && intWidth(cv.Type()) > 0 {
+						isID[cv] = true
+					}
+				}
+			}
+			for _, in := range instrsOf(fn) {
+				bo, ok := in.(*ssa.BinOp)
+				if !ok {
+					continue
+				}
+				switch bo.Op {
+				case token.LSS, token.LEQ, token.GTR, token.GEQ:
+				default:
+					continue
+				}
+				for _, pr := range [][2]ssa.Value{{bo.X, bo.Y}, {bo.Y, bo.X}} {
+					k, isK := constInt(pr[1])
+					if !isK || k <= 255 || k >= 65535 {
+						continue
+					}
+					x := pr[0]
+					if _, isConst := x.(*ssa.Const); isConst {
+						continue
+					}
+					if !(isID[x] || intWidth(x.Type()) == 16) {
+						continue
+					}
+					if _, isLen := lenOperand(strip(x)); isLen {
+						continue
+					}
+					n++
+					c.Bad(R1, FuncName(fn), fmt.Sprintf("comparison of an identifier with %d", k), mm.Pos(bo.Pos()),
+						fmt.Sprintf("a 16-bit identifier is compared with the constant %d, strictly inside the identifier range: identifiers on the other side of that bound are rejected or handled differently (e.g. the signed limit 1<<15 refuses every id ≥ 32768), so public parameters / sessions with large identifiers do not survive where small ones do", k))
+				}
+			}
+		}
+	}
+	if n == 0 {
+		c.OK(R1, "all packages", "identifier comparisons", "-", "no comparison of an identifier with a constant strictly inside 256..65534")
 	}
 }
